@@ -9,9 +9,13 @@ CLAIM = dict(
           "block (eval_expr_balanced, by induction over the mutually recursive evaluator); a failed one leaves the caller's frames under the "
           "frames of the calls in progress; arguments are evaluated once, left to right; an arity mismatch runs nothing of the body; property "
           "writes touch one object; unknown members are errors. Tie: generated programs with methods, types, default properties, "
-          "constructors, methods calling methods, 得到, chains, executed by the interpreter and by the model in Coq (result, display trace, "
+          "constructors, methods calling methods, 得到, chains, and object histories (objects of one type created at different times, updated in "
+          "place — 自增, 后增, key writes — from outside and by their own methods, every object displayed after every step), executed by the interpreter and by the model in Coq (result, display trace, "
           "error code, call-stack length, scope depth)."),
-    note=semprop.TB + "one module only (imports are C15); getters (何为) are not modelled.",
+    note=semprop.TB + ("one module only (imports are C15); getters (何为) are not modelled; numbers have no identity in the model: the "
+                       "in-place updates 自增 / 自减 are generated on number properties only and emitted to the model as the read-add-assign "
+                       "they equal when the property's Number is not aliased (the generator only assigns such properties fresh values and "
+                       "never passes them bare to calls, mutators, 输出 or 得到)."),
     technique="Coq proof (control-state balance invariant by induction on fuel) + model/implementation correspondence",
     design="5/C08")
 
@@ -38,6 +42,50 @@ def witnesses():
     return w
 
 
+def object_history(rng):
+    """objects of one type created at different times; in-place and assigning updates through one of them (from outside and
+    from its own methods); every object's properties displayed after every step"""
+    props = [("Pn", Num(rng.randrange(0, 9))), ("Pl", Arr([Num(rng.randrange(0, 9))])), ("Pd", Map([("k", Num(1))])), ("Ps", Str("s"))]
+    rng.shuffle(props)
+    methods = [("Tick", ["X"], [ExprS(Bump(None, "Pn", False, Num(rng.randrange(1, 5)))), ExprS(Method(ThisProp("Pl"), [("后增", [Var("X")])])),
+                                Return(ThisProp("Pn"))], []),
+               ("Put", ["X"], [ExprS(AssignIndex(ThisProp("Pd"), Str(rng.choice(["k", "m"])), Var("X"))), ExprS(AssignThis("Ps", Str("t")))], [])]
+    body = [Class("C", props, methods)]
+    if rng.random() < 0.4:
+        body.append(Ctor("C", ["V"], [ExprS(AssignThis("Ps", Var("V")))], []))
+        mk = lambda: New("C", [Str(rng.choice(["u", "v"]))])
+    else:
+        mk = lambda: New("C", [])
+    names = []
+
+    def show():
+        return Display(*[Member(Var(o), pn) for o in names for pn in ("Pn", "Pl", "Pd", "Ps")])
+    for _ in range(rng.randrange(4, 9)):
+        k = rng.randrange(6) if names else 0
+        if k == 0 and len(names) < 4:
+            o = "O%d" % len(names)
+            body.append(Decl([(False, [o], mk())]))
+            names.append(o)
+        else:
+            o = rng.choice(names)
+            if k == 1:
+                body.append(ExprS(Bump(Var(o), "Pn", rng.random() < 0.3, Num(rng.randrange(1, 9)))))
+            elif k == 2:
+                body.append(ExprS(Method(Var(o), [("Tick", [Num(rng.randrange(10, 99))])])))
+            elif k == 3:
+                body.append(ExprS(Method(Var(o), [("Put", [Num(rng.randrange(10, 99))])])))
+            elif k == 4:
+                body.append(ExprS(Method(Member(Var(o), "Pl"), [(rng.choice(["后增", "前增"]), [Num(rng.randrange(10, 99))])])))
+            else:
+                body.append(ExprS(AssignMember(Var(o), rng.choice(["Pn", "Ps"]), Num(rng.randrange(100, 200)))))
+        body.append(show())
+    body.append(Return(Arr([Member(Var(o), "Pn") for o in names])))
+    return ([], body, [])
+
+
 def run(chk, replay=None):
-    semprop.run_property(chk, "C08", "c08", PROFILES, 140, 1500, replay=replay, extra_programs=witnesses(),
+    extra = witnesses()
+    if replay is None:
+        extra += [(object_history(chk.rng), None, "object-history") for _ in range(40 if chk.tier == "quick" else 500)]
+    semprop.run_property(chk, "C08", "c08", PROFILES, 120, 1500, replay=replay, extra_programs=extra,
                          what="method call / object semantics differ from the documented behaviour")
